@@ -86,7 +86,7 @@ def unlock(kind):
         if kind == 'protected':
             r.oblige(st, 'cover-all-exit-kinds', z3.BoolVal({'return', 'exception-in-with-block', 'raise PGPDecryptionError'} <= kinds))
         return r.result()
-    return Scenario(label, KEY + '.unlock', gen, props=('C06', 'C15'))
+    return Scenario(label, KEY + '.unlock', gen, props=('C06', 'C15', 'C16'))
 
 
 # ---------------------------------------------------------------------------------------------------
@@ -437,7 +437,7 @@ def packet_protect():
                      ex.truth(v, s) == z3.Or(z3.Not(inuse), z3.And(*[x != 0 for x in vals])))
         res = r.result()
         return {'obligations': obls + res['obligations'], 'funcs': funcs + res['funcs'], 'paths': paths}
-    return Scenario(label, PKT + '.protect', gen, props=('C06', 'C08'))
+    return Scenario(label, PKT + '.protect', gen, props=('C06', 'C08', 'C16'))
 
 
 _base_scn_kp = scenarios
